@@ -200,7 +200,7 @@ fn create_mod_name_for_namespace(abbreviation: &str) -> String {
 fn try_to_find_node_by_xml_name_in_xml_doc<'n>(
     start_node: &'n Node<'n, 'n>,
     xml_name: &str,
-    _namespace: Option<&Namespace>,
+    namespace: Option<&Namespace>,
     doc: &mut RustDocument,
 ) -> WriterResult<RustNode> {
     // get to the root of the document from the start node
@@ -211,6 +211,20 @@ fn try_to_find_node_by_xml_name_in_xml_doc<'n>(
 
     // iterate over all subsequent nodes in the XML tree to find the node with the given name
     for node in start_node.descendants() {
+        // a reference denotes a global component: a child of a schema (of the referenced namespace), never a local
+        // element, attribute or message part that happens to carry the same name
+        let Some(schema) = node
+            .parent()
+            .filter(|p| p.is_element() && p.tag_name().name() == "schema")
+        else {
+            continue;
+        };
+        if let (Some(namespace), Some(target_namespace)) = (namespace, schema.attribute("targetNamespace")) {
+            if namespace.namespace != target_namespace {
+                continue;
+            }
+        }
+
         if node.is_element() {
             // do a quick check on the name of the node, so we can skip the more expensive try_from_node
             if let Some(node_name) = node.attribute("name") {
